@@ -287,6 +287,18 @@ def _builtin(ex, st, c, callee, args, fn):
             if 'Some' not in v.p:
                 return args[1]
             return ite(d == 1, v.p['Some'].f[0], args[1])
+        if k == 'map_or' and len(args) == 3 and 'Some' in v.p:
+            r = call_closure(ex, st.fork(), callee, args[2], [v.p['Some'].f[0]])
+            if r is not None:
+                return ite(d == 1, r[1], args[1])
+        if k == 'map' and len(args) == 2 and 'Some' in v.p:
+            r = call_closure(ex, st.fork(), callee, args[1], [v.p['Some'].f[0]])
+            if r is not None:
+                return Enum(v.d, {'Some': Struct([r[1]]), 'None': UNIT})
+        if k == 'unwrap_or_else' and len(args) == 2:
+            r = call_closure(ex, st.fork(), callee, args[1], [])
+            if r is not None:
+                return ite(d == 1, v.p['Some'].f[0], r[1]) if 'Some' in v.p else r[1]
         if k == 'ok_or':
             pl = {'Err': Struct([args[1]])}
             if 'Some' in v.p:
@@ -324,6 +336,18 @@ def _builtin(ex, st, c, callee, args, fn):
             return _call_closure_on(ex, st, fn, v, 'Err', args[1], callee, wrap=lambda x: Enum(1, {'Err': Struct([x])}))
         if k == 'map' and len(args) == 2:
             return _call_closure_on(ex, st, fn, v, 'Ok', args[1], callee, wrap=lambda x: Enum(0, {'Ok': Struct([x])}))
+        if k == 'map_or' and len(args) == 3 and 'Ok' in v.p:
+            r = call_closure(ex, st.fork(), callee, args[2], [v.p['Ok'].f[0]])
+            if r is not None:
+                return ite(d == 0, r[1], args[1])
+        if k == 'unwrap_or_else' and len(args) == 2 and 'Err' in v.p:
+            r = call_closure(ex, st.fork(), callee, args[1], [v.p['Err'].f[0]])
+            if r is not None:
+                return ite(d == 0, v.p['Ok'].f[0], r[1]) if 'Ok' in v.p else r[1]
+        if k == 'unwrap_or_default' and 'Ok' in v.p:
+            okv = v.p['Ok'].f[0]
+            if isinstance(okv, z3.ExprRef) and z3.is_int(okv):
+                return ite(d == 0, okv, z3.IntVal(0))
     # ---------------------------------------------------------------- memory
     if re.search(r'MaybeUninit::uninit$', c):
         return Struct([None])
@@ -366,6 +390,30 @@ def _builtin(ex, st, c, callee, args, fn):
         if isinstance(p, (Ptr, Ref)):
             return z3.BoolVal(False)
     return NotImplemented
+
+
+def call_closure(ex, st, callee, closure, cargs):
+    """invoke a closure whose body is in the dump; the closure type `{closure@file:l:c: l:c}` is read from the callee's
+    generic arguments.  returns (state, value) or None"""
+    locs = re.findall(r'\{closure@([^}]+)\}', callee)
+    if not locs:
+        return None
+    for loc in reversed(locs):
+        cands = [f for lst in ex.prog.fns.values() for f in lst if '{closure#' in f.name and f.params and loc in f.ltypes.get(f.params[0], '')]
+        if len(cands) > 1 and all(c.blocks == cands[0].blocks for c in cands[1:]):
+            cands = cands[:1]
+        if len(cands) == 1:
+            f = cands[0]
+            # closure bodies take (closure env, args...) ; FnOnce/FnMut/Fn differ in how the env is passed (by value / by ref)
+            envp = f.ltypes.get(f.params[0], '')
+            env = closure
+            if envp.startswith('&') and not isinstance(closure, (Ref, IteRef)):
+                st.mem[('clo', id(closure))] = closure
+                env = Ref('clo', id(closure))
+            outs = ex.inline(f, [env] + list(cargs), st)
+            if len(outs) == 1:
+                return outs[0]
+    return None
 
 
 def _call_closure_on(ex, st, fn, v, variant, closure, callee, wrap):
